@@ -304,6 +304,35 @@ fn getters_window(env: &mut Env, lo: i64, hi: i64) {
     });
 }
 
+/// weekday() / day_of_year() of every `stride`-th day of the whole range (phase from the seed)
+fn getters_stride(env: &mut Env, stride: i64) {
+    let phase = (env.seed % stride as u64) as i64;
+    const CH: i64 = 1 << 16;
+    let n_chunks = ((cal::MAX_DAY - cal::MIN_DAY) / stride / CH + 1) as u64;
+    env.run_fast::<DayFields>(n_chunks, move |c, fs| {
+        let mut bad = Vec::new();
+        for k in 0..CH {
+            let day = cal::MIN_DAY + phase + (c as i64 * CH + k) * stride;
+            if day > cal::MAX_DAY {
+                break;
+            }
+            fs.evaluations += 1;
+            let (y, _, _) = cal::ymd_from_days(day);
+            let doy = (day - cal::days_from_ymd(y, 1, 1) + 1) as u32;
+            let wd = (day + 1).rem_euclid(7) as u8;
+            let ok = catch(|| {
+                let d = Date::from_timestamp((day - cal::DAYS_TO_1970) * 86_400);
+                d.weekday() == wd && d.day_of_year() == doy
+            })
+            .unwrap_or(false);
+            if !ok && bad.len() < 32 {
+                bad.push(DayCase { day });
+            }
+        }
+        bad
+    });
+}
+
 /// formatted fields for a list of (start, len) day runs, inline string comparison
 fn format_runs(env: &mut Env, runs: std::sync::Arc<Vec<(i64, i64)>>) {
     const CH: usize = 256;
@@ -420,7 +449,7 @@ pub fn run(env: &mut Env) {
         runs.push((-400 * 366, 800 * 366));
         runs.push((cal::MIN_DAY, 400));
         runs.push((cal::MAX_DAY - 399, 400));
-        let mut split = Vec::new();
+        let mut split: Vec<(i64, i64)> = Vec::new();
         for (s, l) in runs {
             let mut s0 = s;
             let mut left = l;
@@ -431,7 +460,24 @@ pub fn run(env: &mut Env) {
             }
             split.push((s0, left));
         }
+        // sweeps over the whole domain: every 16001st day, and the year-end fortnight of every 499th
+        // year (phase from the seed), for the formatted fields; every 41st day for the getters
+        let ph = env.seed as i64;
+        let mut d = cal::MIN_DAY + ph.rem_euclid(16_001);
+        while d <= cal::MAX_DAY {
+            split.push((d, 1));
+            d += 16_001;
+        }
+        let mut y = cal::MIN_YMD.0 + 1 + ph.rem_euclid(499);
+        while y < cal::MAX_YMD.0 {
+            if y != 0 {
+                split.push((cal::days_from_ymd(y, 12, 25), 14));
+            }
+            y += 499;
+        }
         format_runs(env, std::sync::Arc::new(split));
+        getters_stride(env, 41);
+        env.exhaustive_parts.push("C02 (quick): weekday()/day_of_year() of every 41st day of the whole range; w/q/e/D fields of every 16001st day and of Dec 25..Jan 7 of every 499th year (phases from the seed)".into());
         let years: Vec<i64> = (-1300i64..=2600).chain(-5_879_611..=-5_879_500).chain(5_879_500..=5_879_611).filter(|y| *y != 0).collect();
         set_doy_years(env, std::sync::Arc::new(years));
         env.run_random::<DayFields>(500_000);
